@@ -9,3 +9,22 @@ add("F24","C02","fixed","unexpected-failure:rename","after an index rebuild Remo
     ops=[{"k":"mkdir","p":"/b","m":0o755},{"k":"rebuild"},{"k":"rename","p":"/b","q":"/c"},{"k":"remove","p":"/c"}], commit="63c86e2")
 add("F25","C10","fixed","hang","after a failed drive write left index and tape out of step, reading an entry whose position holds a non-regular record blocked forever (restore ended without closing the pipe)",
     ops=[{"k":"mkdir","p":"/d","m":0o755},{"k":"writefile","p":"/a","d":D(0,1)}], faults=[{"seam":"drive.write","k":4}], params={"enumerate":0}, commit="3ec4cde")
+add("KF3","C16","open","opened-differs-from-scratch-rebuild",
+    "opening over an existing index that reflects only a prefix of the tape (stale index, e.g. after a crash between the tape append and the index update) never catches up: Initialize returns the cached root and the filesystem shows the stale prefix state, not what a rebuild of the tape shows",
+    ops=[{"k":"mkdir","p":"/d","m":0o755}], params={"enumerate":0,"cut":-1,"idx":0}, relax="stale-index-open")
+def addfile(id,prop,status,oracle,what,relax=None,commit=None,also=None):
+    fn=f"findings/{id}.json"
+    c=json.load(open("/verif/"+fn))
+    c["expect"]={"property":prop,"oracle":oracle,"detail":what,"step":0}
+    json.dump(c,open("/verif/"+fn,"w"),indent=1)
+    e={"id":id,"property":prop,"status":status,"oracle":oracle,"what":what,"replay":fn}
+    if relax: e["relaxation"]=relax
+    if commit: e["commit"]=commit
+    if also: e["also"]=also
+    F.append(e)
+addfile("KF2","C16","open","open-appends-although-root-exists",
+    "opening (index absent) a tape whose last record is cut inside its content: the rebuild returns 'unexpected EOF', Initialize treats that like an empty tape, appends a new root record although a root exists and leaves an index that holds only that root",
+    relax="torn-content-open")
+addfile("KF4","C16","open","write-after-open-fails",
+    "after opening a tape whose tail is cut off the 512-byte grid (or inside a record), later writes are appended directly behind the torn bytes: they are never indexed (the call fails with not-exist or the entry is lost on rebuild)",
+    relax="torn-tail-append")
